@@ -489,18 +489,27 @@ def case_guard(ctx, rng, idx):
     wd = fresh_dir("c07_%d_guard" % idx)
     ncalls = conf.rep_max * 3
     k = int(rng.integers(conf.rep_max + 1, ncalls + 1))     # at least one complete variation
-    st = run_child(conf, wd, {"rep": (k, "before")}, 0, "first")
+    complete_first = rng.random() < 0.5       # or an uninterrupted first run (all files exist)
+    st = run_child(conf, wd, {} if complete_first else {"rep": (k, "before")}, 0, "first")
     files = snapshot_files(wd)
-    if st != 137 or not files:
+    if st != (0 if complete_first else 137) or not files:
         ctx.tally("guard-setup-failed")
         shutil.rmtree(wd, ignore_errors=True)
         return
     kind = ["fixed-value", "unpacked-list", "extra-parameter", "larger-rep_max",
-            "same"][idx % 5]
+            "same", "unpacked-list-keep-first"][idx % 6]
+    if kind == "unpacked-list-keep-first" and not complete_first:
+        # the file of a LATER variation must exist: crash in the last variation
+        shutil.rmtree(wd, ignore_errors=True)
+        wd = fresh_dir("c07_%d_guard" % idx)
+        st = run_child(conf, wd, {"rep": (2 * conf.rep_max + 1, "after")}, 0, "first")
+        files = snapshot_files(wd)
     if kind == "fixed-value":
         ov = {"fixed": {"bias": 2.5, "label": "x"}}
     elif kind == "unpacked-list":
         ov = {"unpacked": {"snr": np.array([1.0, 5.0, 10.0])}}
+    elif kind == "unpacked-list-keep-first":
+        ov = {"unpacked": {"snr": np.array([0.0, 6.0, 12.0])}}
     elif kind == "extra-parameter":
         ov = {"fixed": {"bias": 1.5, "label": "x", "extra": 3}}
     elif kind == "larger-rep_max":
@@ -510,12 +519,12 @@ def case_guard(ctx, rng, idx):
     st2 = run_child(conf, wd, {}, UID_RESTART, "second", override=ov)
     err = read_text(os.path.join(wd, "err_second.txt"))
     d = {**tag, "changed": kind, "status": st2, "error": err[-500:]}
-    if kind in ("fixed-value", "unpacked-list", "extra-parameter"):
+    if kind in ("fixed-value", "unpacked-list", "extra-parameter", "unpacked-list-keep-first"):
         ctx.ev("parameter-guard", st2 != 0 and "ValueError" in err, cls=kind + ":not-refused",
                detail=d)
         ctx.ev("parameter-guard", snapshot_files(wd) == files or
                all(files[f] == snapshot_files(wd).get(f) for f in files
-                   if kind != "unpacked-list"),
+                   if not kind.startswith("unpacked-list")),
                cls=kind + ":files-touched", detail=d)
     else:
         out = read_json(os.path.join(wd, "summary_second.json"))
@@ -533,7 +542,7 @@ def classify(w):
 
 GENS = {
     "crash": Gen(case_crash, 18, 1500),
-    "guard": Gen(case_guard, 15, 500),
+    "guard": Gen(case_guard, 24, 600),
 }
 MIN_EVALS = {"exactly-once": 300, "restart-completes": 150, "crash-injected": 150,
              "fault-free-run": 10, "parameter-guard": 10, "final-file": 150}
